@@ -62,7 +62,7 @@ def install_power(x):
         r = orig(x, a, e)
         P = getattr(x, 'power', None)
         if P is not None:
-            P['small'][pathstr(a[0])] = tick(P)
+            P['small'][id(x.fs.files.get(pathstr(a[0])))] = tick(P)
         return r
     fn['fs::write'] = f_write_small
 
@@ -70,7 +70,10 @@ def install_power(x):
         res = orig(x, r, a, e)
         P = getattr(x, 'power', None)
         if P is not None and res.variant == 'Ok':
-            P['syncs'].append(('dir' if r.is_dir else 'file', r.path, tick(P)))
+            t_ = tick(P)
+            P['syncs'].append(('dir' if r.is_dir else 'file', r.path, t_))
+            if r.fm is not None:
+                P['syncs'].append(('obj', id(r.fm), t_))
         return res
     mm[('FileV', 'sync_all')] = m_sync
 
@@ -119,18 +122,24 @@ def apply_power_loss(x):
         # only the last rename that reached the disk matters: L = 0 (none) .. len(rs)
         L = x.choose(len(rs) + 1, 'last_durable_rename') if len(rs) > 0 else 0
         L = len(rs) - L         # explore "all kept" first
-        if L == len(rs):
-            continue
-        nxt = rs[L]
-        directives.append(dict(t='index_state', before=list(nxt['coord'])))
-        if L == 0:
-            old = rs[0]['old']
-            if old is None:
-                x.fs.files.pop(dst, None)
+        if L < len(rs):
+            nxt = rs[L]
+            directives.append(dict(t='index_state', before=list(nxt['coord'])))
+            if L == 0:
+                old = rs[0]['old']
+                if old is None:
+                    x.fs.files.pop(dst, None)
+                else:
+                    x.fs.files[dst] = old
             else:
-                x.fs.files[dst] = old
-        else:
-            x.fs.files[dst] = rs[L - 1]['obj']
+                x.fs.files[dst] = rs[L - 1]['obj']
+        if L > 0:
+            # the surviving rename points at a file whose *content* may never have been synced
+            obj = rs[L - 1]['obj']
+            ws = P['small'].get(id(obj))
+            if ws is not None and not synced('obj', id(obj), ws) and not x.flip('keep_index_content'):
+                x.fs.files[dst] = envmodel.SmallFile(dst, None)
+                directives.append(dict(t='index_empty'))
         # the name of the temporary file of a lost rename may or may not exist; recovery must not depend on it
     # data writes
     for path in wal:
